@@ -438,7 +438,7 @@ def from_entity(cd: ClassDesc, x: object) -> dict:
     for f in cd.fields:
         v = getattr(x, f.name)
         if f.tag is not None:
-            if py_equal(v, default_value(f)):
+            if equals_default(v, default_value(f)):
                 tree[f.name] = ABSENT
             else:
                 tree[f.name] = Present(_field_from_py(f, v))
@@ -456,7 +456,7 @@ def is_canonical(cd: ClassDesc, tree: dict) -> bool:
             if v is ABSENT:
                 continue
             v = v.value
-            if py_equal(_field_to_py(f, v), default_value(f)):
+            if equals_default(_field_to_py(f, v), default_value(f)):
                 return False
         if f.kind == "struct" and v is not None:
             items = v if f.array else [v]
@@ -466,6 +466,14 @@ def is_canonical(cd: ClassDesc, tree: dict) -> bool:
 
 
 # --------------------------------------------------------------------------- equality
+
+
+def equals_default(value: object, default: object) -> bool:
+    """Is `value` the default as far as tag elision goes?  Like py_equal, but floats compare numerically
+    (Kafka omits a tagged double when `value == default`, so -0.0 counts as the 0.0 default)."""
+    if isinstance(value, float) and isinstance(default, float):
+        return value == default
+    return py_equal(value, default)
 
 
 def py_equal(a: object, b: object) -> bool:
@@ -558,7 +566,7 @@ def canonicalize(cd: ClassDesc, tree: dict) -> dict:
         if f.kind == "struct" and v is not None:
             v = [canonicalize(f.struct, i) for i in v] if f.array else canonicalize(f.struct, v)
         if wrapped:
-            out[f.name] = ABSENT if py_equal(_field_to_py(f, v), default_value(f)) else Present(v)
+            out[f.name] = ABSENT if equals_default(_field_to_py(f, v), default_value(f)) else Present(v)
         else:
             out[f.name] = v
     return out
